@@ -330,7 +330,7 @@ fn emit(g: &mut BGen, op: &str) -> Unit {
         "d0" | "l" | "m" | "Td" | "TD" => nums!(2),
         "G" | "g" | "i" | "M" | "Tc" | "TL" | "Ts" | "Tw" | "Tz" | "w" => nums!(1),
         "d" => {
-            let k = g.src.draw(4);
+            let k = if g.src.draw(16) == 0 { g.edge.push("long-array"); *g.src.pick(&[31u32, 32, 33, 64, 65, 128, 300]) } else { g.src.draw(4) };
             let mut t = vec![b'[']; let mut a = Vec::new();
             for i in 0..k { let (s, v) = g.num(); if i > 0 { t.push(b' '); } t.extend_from_slice(s.as_bytes()); a.push(v); }
             t.push(b']');
@@ -344,7 +344,7 @@ fn emit(g: &mut BGen, op: &str) -> Unit {
         }
         "ri" => { let s = *g.src.pick(&["RelativeColorimetric", "AbsoluteColorimetric", "Perceptual", "Saturation"]); parts.push(format!("/{}", s).into_bytes()); vals.push(RObj::Name(s.into())); }
         "SC" | "sc" => { let k = *g.src.pick(&[1, 3, 4]); nums!(k); }
-        "SCN" | "scn" => { let k = g.src.draw(5); nums!(k); if k == 0 || g.src.draw(2) == 1 { name!(); } }
+        "SCN" | "scn" => { let k = if g.src.draw(16) == 0 { g.edge.push("many-operands"); *g.src.pick(&[8u32, 31, 32, 33, 34, 63, 64, 65, 128, 300]) } else { g.src.draw(5) }; nums!(k); if k == 0 || g.src.draw(2) == 1 { name!(); } }
         "Tf" => { name!(); nums!(1); }
         "Tj" | "'" => string!(),
         "\"" => { nums!(2); string!(); }
